@@ -20,7 +20,7 @@ Lemma shutdown_case_exits l i c :
 Proof.
   intros Hok Hn Hs. destruct (loop_ok_parts l Hok) as (_ & Hc & _).
   rewrite forallb_forall in Hc. specialize (Hc c (nth_error_In _ _ Hn)).
-  unfold case_ok in Hc. rewrite Hs in Hc.
+  unfold case_ok in Hc. rewrite Hs in Hc. apply andb_true_iff in Hc. destruct Hc as [_ Hc].
   unfold iter. rewrite Hn, Hc. reflexivity.
 Qed.
 
@@ -157,4 +157,12 @@ Proof.
   unfold iter. destruct (nth_error (cases l) i) as [c|] eqn:En; [|exact IH].
   rewrite forallb_forall in H. specialize (H c (nth_error_In _ _ En)).
   destruct (leaves (tm c)); [discriminate|exact IH].
+Qed.
+
+(* a checked loop has no case on a timer that is made once and never re-armed *)
+Lemma no_oneshot_case l c : loop_ok l = true -> In c (cases l) -> is_oneshot c = false.
+Proof.
+  intros Hok Hin. destruct (loop_ok_parts l Hok) as (_ & Hc & _).
+  rewrite forallb_forall in Hc. specialize (Hc c Hin). unfold case_ok in Hc.
+  apply andb_true_iff in Hc. destruct Hc as [Hc _]. destruct (is_oneshot c); [discriminate|reflexivity].
 Qed.
